@@ -153,7 +153,15 @@ def run_fsplit(case, stt):
 
 # -- 3. perturbations must be refused ----------------------------------------------------------------------------
 
-TIME_PERT = ["shift_start", "swap", "overlap", "gap", "rate", "chan_bw", "center_freq", "class", "twice", "start_missing_ok"]
+TIME_PERT = ["shift_start", "swap", "overlap", "gap", "rate", "chan_bw", "center_freq", "class", "twice", "start_missing_ok", "rate_unit",
+             "chan_bw_unit", "rate_equiv_ok"]
+
+
+def other_unit(qq, same_number):
+    """the quantity's NUMBER in another frequency unit (a different rate), or the same rate written in another unit"""
+    new = u.kHz if qq.unit == u.Hz else (u.Hz if qq.unit in (u.kHz, u.MHz) else u.MHz)
+    return u.Quantity(qq.value, new) if same_number else qq.to(new)
+
 FREQ_PERT = ["f_gap", "f_overlap", "f_order", "f_start", "f_rate", "f_twice"]
 OTHER_PERT = ["o_start", "o_labels", "o_rate"]
 
@@ -161,9 +169,9 @@ OTHER_PERT = ["o_start", "o_labels", "o_rate"]
 @st.composite
 def pert_case(draw):
     kind = draw(st.sampled_from(TIME_PERT + FREQ_PERT + OTHER_PERT))
-    radio_needed = kind in ("chan_bw", "center_freq") or kind in FREQ_PERT or kind == "o_labels"
+    radio_needed = kind in ("chan_bw", "center_freq", "chan_bw_unit") or kind in FREQ_PERT or kind == "o_labels"
     classes = G.RADIO if radio_needed else G.CLASSES
-    if kind == "chan_bw":
+    if kind in ("chan_bw", "chan_bw_unit"):
         classes = ["RadioSignal", "IntensitySignal", "FullStokesSignal"]
     mt = 1
     spec = draw(G.signal_spec(classes=classes, nmin=4, nmax=40, nchan_max=9, max_trailing=mt, start="some", sr=G.freq_q(0, 9.6)))
@@ -227,6 +235,24 @@ def run_pert(case, stt):
         bad = [p0, q] if case["j"] else [q, p0]
         if not case["j"]:
             bad = [type(p0).like(p0, sample_rate=p0.sample_rate * (1 + case["r"])), p1]
+    elif kind == "rate_unit":
+        # the same NUMBER in another unit (2 Hz next to 2 kHz): a different rate
+        if isinstance(z, pb.BasebandSignal):
+            bad = [p0, type(p1).like(p1, sample_rate=other_unit(p1.sample_rate, True))]
+        else:
+            bad = [p0, perturbed(p1, via, sample_rate=other_unit(p1.sample_rate, True))]
+        if not case["j"]:
+            bad = bad[::-1]
+            bad[0].start_time, bad[1].start_time = p0.start_time, None  # (nominally contiguous either way)
+    elif kind == "chan_bw_unit":
+        bad = [p0, perturbed(p1, via, chan_bw=other_unit(p1.chan_bw, True))]
+    elif kind == "rate_equiv_ok":
+        # the SAME rate written in another unit is the same rate
+        q = type(p1).like(p1, sample_rate=other_unit(p1.sample_rate, False))
+        if float(O.hz(q.sample_rate) / O.hz(p1.sample_rate) - 1) == 0.0:
+            good, bad = [p0, q], None
+        else:
+            good, bad = [p0, p1], None  # (conversion not exact in doubles)
     elif kind == "chan_bw":
         bad = [p0, perturbed(p1, via, chan_bw=p1.chan_bw * 2)]
     elif kind == "center_freq":
